@@ -1,11 +1,226 @@
 import GoguVerif.Go.Run
-/-! Driver wiring for C15 (stub — to be filled in). -/
+import GoguVerif.Spec.C15
+import GoguVerif.Model.C15
+/-!
+# Driver wiring for C15 (string helpers)
+
+`CASE c15 [[rune,lower,upper],…]` — the case table computed by the harness with package `unicode`.
+Every line is one call; the model's answer is compared with the implementation's (correspondence) and
+the specification's checker judges the implementation's own answer (monitor).
+-/
 namespace GoguVerif.Kinds.C15
-open GoguVerif
+open GoguVerif GoguVerif.Go.Utf8
+open GoguVerif.Model.C15 (Outcome)
+
+abbrev Table := List (Nat × Nat × Nat)
+
+def parseTable (v : Val) : Option Table :=
+  match v with
+  | .list l => l.mapM fun e =>
+    match e with
+    | .list [.int r, .int lo, .int up] =>
+      if r < 0 ∨ lo < 0 ∨ up < 0 then none else some (r.toNat, lo.toNat, up.toNat)
+    | _ => none
+  | _ => none
+
+def lookup (t : Table) (r : Nat) : Option (Nat × Nat) :=
+  match t with
+  | [] => none
+  | (k, v) :: rest => if k == r then some v else lookup rest r
+
+/-- the table as functions (a rune outside the table is reported as BAD before these are used) -/
+def loOf (t : Table) (r : Nat) : Nat := match lookup t r with | some v => v.1 | none => r
+def upOf (t : Table) (r : Nat) : Nat := match lookup t r with | some v => v.2 | none => r
+
+def covered (t : Table) (s : Str) : Bool :=
+  (lookup t runeError).isSome && (runes s).all fun r => (lookup t r).isSome
+
+def outVal (o : Outcome Str) : List Val :=
+  match o with
+  | .ok b => [Val.ofBytes b]
+  | .panic => [.atom "panic"]
+
+def isPanic (res : List Val) : Bool :=
+  match res with
+  | [.atom "panic"] => true
+  | [.atom "hang"] => true
+  | _ => false
+
+def bytes1 (res : List Val) : Option Str :=
+  match res with
+  | [v] => v.bytes?
+  | _ => none
+
+/-- monitor for a function whose specification determines the answer: `want` -/
+def judgeEq (clause : String) (res : List Val) (want : Str) : Option String :=
+  if isPanic res then some (clause ++ ":no-panic")
+  else match bytes1 res with
+    | some r => if r == want then none else some clause
+    | none => some (clause ++ ":malformed")
+
+def judgeBy (clause : String) (res : List Val) (ok : Str → Bool) : Option String :=
+  if isPanic res then some (clause ++ ":no-panic")
+  else match bytes1 res with
+    | some r => if ok r then none else some clause
+    | none => some (clause ++ ":malformed")
+
+def hasMulti (s : Str) : Bool := s.any fun b => b.toNat ≥ 0x80
+
+def step (t : Table) (l : Line) : Step Table :=
+  let lo := loOf t
+  let up := upOf t
+  match l.op, l.args with
+  | "substr", [sv, .int off, .int len] =>
+    match sv.bytes? with
+    | none => { st := t, bad := some "substr args" }
+    | some s =>
+      let want := Spec.C15.substrSpec s off len
+      { st := t, model := some (outVal (Model.C15.substr s off len))
+        spec := judgeEq "substr:php-range" l.res want
+        tags := ["substr", if want.isEmpty then "substr:empty" else "substr:range"] ++
+          (if off < 0 then ["substr:neg-offset"] else []) ++ (if len < 0 then ["substr:neg-length"] else [])
+        nontrivial := !want.isEmpty && want.length < s.length }
+  | "split", [sv, .int idx] =>
+    match sv.bytes? with
+    | none => { st := t, bad := some "split args" }
+    | some s =>
+      let model : List Val := match Model.C15.splitAtIndex s idx with
+        | .ok parts => [.list (parts.map Val.ofBytes)]
+        | .panic => [.atom "panic"]
+      let verdict : Option String :=
+        if isPanic l.res then some "split:no-panic"
+        else match l.res with
+          | [.list ps] =>
+            match ps.mapM Val.bytes? with
+            | some parts => if Spec.C15.splitOk s parts then none else some "split:two-parts-concat"
+            | none => some "split:malformed"
+          | _ => some "split:malformed"
+      let inside : Bool := decide (0 ≤ idx ∧ idx + 1 < s.length) &&
+        (match s[(idx + 1).toNat]? with | some b => isCont b.toNat | none => false)
+      { st := t, model := some model, spec := verdict
+        tags := ["split"] ++ (if inside then ["split:inside-rune"] else [])
+        nontrivial := decide (0 ≤ idx ∧ idx + 1 < s.length) }
+  | op, [sv, .int size, tv] =>
+    match sv.bytes?, tv.bytes? with
+    | some s, some tok =>
+      let silent := tok.isEmpty && decide (size > s.length)
+      let (m, ok) : Outcome Str × (Str → Bool) :=
+        if op == "pad" then (Model.C15.pad s size tok, Spec.C15.padOk s size tok)
+        else if op == "padl" then (Model.C15.padLeft s size tok, Spec.C15.padLeftOk s size tok)
+        else (Model.C15.padRight s size tok, Spec.C15.padRightOk s size tok)
+      if op != "pad" && op != "padl" && op != "padr" then { st := t, bad := some s!"c15: bad line {op}" }
+      else
+        let d := size - s.length
+        { st := t, model := some (outVal m)
+          spec := if silent then none else judgeBy (op ++ ":length-position-filler") l.res ok
+          tags := [op] ++ (if silent then ["pad:empty-token"] else
+            if d ≤ 0 then ["pad:long-enough"] else
+            if (tok.length : Int) ≤ (if op == "pad" then d / 2 else d) then ["pad:repeat"] else ["pad:truncate"])
+          nontrivial := !silent && decide (d > 0) && decide ((tok.length : Int) < d) }
+    | _, _ => { st := t, bad := some "pad args" }
+  | op, [sv, tv] =>
+    match sv.bytes?, tv.bytes? with
+    | some s, some tok =>
+      if op == "wrap" then
+        { st := t, model := some [Val.ofBytes (Model.C15.wrap s tok)]
+          spec := judgeEq "wrap:token-both-sides" l.res (Spec.C15.wrapSpec s tok), tags := ["wrap"] }
+      else if op == "unwrap" then
+        let want := Spec.C15.unwrapSpec s tok
+        let stripped := want.length < s.length
+        { st := t, model := some (outVal (Model.C15.unwrap s tok))
+          spec := judgeEq (if stripped then "unwrap:undoes-wrap" else "unwrap:not-wrapped-unchanged") l.res want
+          tags := ["unwrap", if stripped then "unwrap:stripped" else "unwrap:unchanged"] ++
+            (if !stripped && !tok.isEmpty && (tok.isPrefixOf s || tok.isSuffixOf s) then ["unwrap:half-wrapped"] else [])
+          nontrivial := !tok.isEmpty && (tok.isPrefixOf s || tok.isSuffixOf s) }
+      else if op == "unwrapwrap" then
+        { st := t, model := some (outVal (Model.C15.unwrap (Model.C15.wrap s tok) tok))
+          spec := judgeEq "unwrap-wrap:round-trip" l.res s
+          tags := ["unwrapwrap"], nontrivial := !tok.isEmpty && !s.isEmpty }
+      else if op == "wrapall" then
+        { st := t, model := some [Val.ofBytes (Model.C15.wrapAllRune s tok)]
+          spec := judgeEq "wrapall:every-rune" l.res (Spec.C15.wrapAllSpec s tok)
+          tags := ["wrapall"], nontrivial := hasMulti s && !tok.isEmpty }
+      else { st := t, bad := some s!"c15: bad line {op}" }
+    | _, _ => { st := t, bad := some "wrap args" }
+  | op, [sv] =>
+    match sv.bytes? with
+    | none => { st := t, bad := some "string arg" }
+    | some s =>
+      if op == "reverse" then
+        { st := t, model := some (outVal (Model.C15.reverseStr s))
+          spec := judgeEq "reverse:runes-reversed" l.res (Spec.C15.reverseSpec s)
+          tags := ["reverse"], nontrivial := hasMulti s && (runes s).length ≥ 2 }
+      else if !(covered t s) then { st := t, bad := some "c15: rune missing from the case table" }
+      else if op == "lower" then
+        let want := Spec.C15.lowerSpec lo s
+        { st := t, model := some [Val.ofBytes (Model.C15.toLower lo s)]
+          spec := judgeEq "lower:unicode-mapping" l.res want, tags := ["lower"], nontrivial := want != s }
+      else if op == "upper" then
+        let want := Spec.C15.upperSpec up s
+        { st := t, model := some [Val.ofBytes (Model.C15.toUpper up s)]
+          spec := judgeEq "upper:unicode-mapping" l.res want, tags := ["upper"], nontrivial := want != s }
+      else if op == "cap" then
+        let want := Spec.C15.capSpec lo up s
+        { st := t, model := some [Val.ofBytes (Model.C15.capitalize lo up s)]
+          spec := judgeEq "cap:unicode-mapping" l.res want, tags := ["cap"], nontrivial := want != s }
+      else
+        let dom := Spec.C15.inDomain s
+        let words := (Spec.C15.initials true s).filter id |>.length
+        let domTags := if dom then [op ++ ":domain"] else [op ++ ":outside"]
+        if op == "camel" then
+          { st := t, model := some [Val.ofBytes (Model.C15.camelCase lo up s)]
+            spec := if dom then judgeBy "camel:letters-kept-no-separator-initials" l.res (Spec.C15.camelOk s) else none
+            tags := ["camel"] ++ domTags, nontrivial := dom && words ≥ 2 }
+        else if op == "snake" then
+          let model : List Val := match Model.C15.snakeCase lo s with
+            | .panic => [.atom "panic"]
+            | .ok r => match Model.C15.snakeCase lo r, Model.C15.kebabCase lo s with
+              | .ok rr, .ok rk => [Val.ofBytes r, Val.ofBytes rr, Val.ofBytes rk]
+              | _, _ => [.atom "panic"]
+          let verdict : Option String :=
+            if !dom then none
+            else if isPanic l.res then some "snake:no-panic"
+            else match l.res with
+              | [a, b, c] =>
+                match a.bytes?, b.bytes?, c.bytes? with
+                | some r, some rr, some rk =>
+                  if !(Spec.C15.delimOk 0x5F s r r) then some "snake:letters-kept-own-delimiter-lower"
+                  else if rr != r then some "snake:idempotent"
+                  else if !(Spec.C15.sameUpToDelim r rk) then some "snake-kebab:differ-only-in-delimiter"
+                  else none
+                | _, _, _ => some "snake:malformed"
+              | _ => some "snake:malformed"
+          { st := t, model := some model, spec := verdict, tags := ["snake"] ++ domTags
+            nontrivial := dom && (words ≥ 2 || !(Model.C15.findCamel 0 0 s).isEmpty) }
+        else if op == "kebab" then
+          let model : List Val := match Model.C15.kebabCase lo s with
+            | .panic => [.atom "panic"]
+            | .ok r => match Model.C15.kebabCase lo r with
+              | .ok rr => [Val.ofBytes r, Val.ofBytes rr]
+              | .panic => [.atom "panic"]
+          let verdict : Option String :=
+            if !dom then none
+            else if isPanic l.res then some "kebab:no-panic"
+            else match l.res with
+              | [a, b] =>
+                match a.bytes?, b.bytes? with
+                | some r, some rr =>
+                  if !(Spec.C15.delimOk 0x2D s r r) then some "kebab:letters-kept-own-delimiter-lower"
+                  else if rr != r then some "kebab:idempotent"
+                  else none
+                | _, _ => some "kebab:malformed"
+              | _ => some "kebab:malformed"
+          { st := t, model := some model, spec := verdict, tags := ["kebab"] ++ domTags
+            nontrivial := dom && (words ≥ 2 || !(Model.C15.findCamel 0 0 s).isEmpty) }
+        else { st := t, bad := some s!"c15: bad line {op}" }
+  | op, _ => { st := t, bad := some s!"c15: bad line {op}" }
 
 def kind : Kind where
-  σ := Unit
-  init := fun _ => some ()
-  step := fun st l => { st := st, bad := some s!"C15: kind not implemented ({l.op})" }
+  σ := Table
+  init := fun ps => match ps with
+    | [v] => parseTable v
+    | [] => some []
+    | _ => none
+  step := step
 
 end GoguVerif.Kinds.C15
